@@ -341,6 +341,21 @@ def run_impl(sc, url="ws://example.test/chat", ws_kwargs=None, check_alias=True)
             except BaseException:
                 pass
         sc = dict(sc, _ws_object=ws0)
+    if sc.get("debug_log") and not sc.get("_debug_log_on"):
+        # the application has switched on DEBUG logging for the library (records go to a handler that drops them)
+        import logging
+        lg = logging.getLogger("lomond")
+        old_level, old_prop = lg.level, lg.propagate
+        h = logging.NullHandler()
+        lg.addHandler(h)
+        lg.setLevel(logging.DEBUG)
+        lg.propagate = False
+        try:
+            return run_impl(dict(sc, _debug_log_on=True), url=url, ws_kwargs=ws_kwargs, check_alias=check_alias)
+        finally:
+            lg.setLevel(old_level)
+            lg.propagate = old_prop
+            lg.removeHandler(h)
     run = Run(sc)
     key16 = sc.get("key16", b"\x01" * 16)
 
